@@ -13,7 +13,9 @@ class C23(Prop):
   quick_examples = 1200
   thorough_examples = 15000
   rule = ("Hypothesis-generated chart x start state x event list on every host (plain, instrumented, "
-          "queued with instrumentation on/off; decorated or not). Oracle after start_at and after every step: state_name equals "
+          "queued with instrumentation on/off, a named and an anonymous started ActiveObject under the "
+          "deterministic scheduler; decorated or not; in a quarter of the charts several state "
+          "functions share one __name__). Oracle after start_at and after every step: state_name equals "
           "the reference model's current state name; state_fn is that state's handler or the "
           "function it decorates; on an instrumented queued chart current_state() returns the same "
           "name. Non-trivial: the history contains a step that changes the current state; distinct "
@@ -24,9 +26,19 @@ class C23(Prop):
   ]
 
   def strategy(self, tier):
-    hosts = st.sampled_from(["plain", "instr", "queued", "queued_off"])
+    hosts = st.sampled_from(["plain", "instr", "queued", "queued_off", "queued", "ao", "ao_anonymous"])
     base = st.one_of(chartgen.chart_case(max_events=10), y_case())
-    return st.tuples(base, hosts).map(lambda t: dict(t[0], host=t[1]))
+
+    def finish(t):
+      case, host, mod = dict(t[0], host=t[1]), t[1], t[2]
+      n = case["spec"]["n"]
+      if mod and n >= 2:
+        # different state functions may carry the same __name__ (one builder called twice)
+        case["spec"] = dict(case["spec"], names=["vs%d" % (i % mod) for i in range(n)])
+      if host == "ao_anonymous":
+        case["spec"] = dict(case["spec"], spy=True)      # an unnamed object needs a decorated start state
+      return case
+    return st.tuples(base, hosts, st.sampled_from([0, 0, 0, 1, 2, 3])).map(finish)
 
   def probe(self, chart, rt, model, where, case):
     i = model.cur
@@ -38,7 +50,7 @@ class C23(Prop):
     if not (fn is rt.fns[i] or fn is rt.inner[i] or fn == rt.fns[i]):
       raise PropertyViolation("%s: state_fn is %r, not the handler of %s" % (
         where, getattr(fn, "__name__", fn), want), "C23:state_fn")
-    if case["host"].startswith("queued") and getattr(chart, "instrumented", False):
+    if (case["host"].startswith("queued") or case["host"].startswith("ao")) and getattr(chart, "instrumented", False):
       cs = chart.current_state()
       if cs != want:
         raise PropertyViolation("%s: current_state() is %r, current state is %s" % (
@@ -46,9 +58,52 @@ class C23(Prop):
       return True
     return False
 
+  def check_ao(self, case, stats):
+    """The chart on a started ActiveObject (named, or anonymous so that start_at invents a name)."""
+    from .. import detsched
+    from ..refmodel import Model
+    from miros.event import Event, signals
+    ao = detsched.install()
+    detsched.reset(ao)
+    files = detsched.miros_files()
+    spec = case["spec"]
+    rt = chartgen.build(spec, decorate=spec["spy"])
+    model = Model(spec)
+    box = {"changed": False}
+
+    def body(s):
+      klass = chartgen.bounded(ao.ActiveObject)
+      chart = klass() if case["host"] == "ao_anonymous" else klass(name="vfnamed")
+      model.start(case["start"])
+      chart.start_at(rt.fns[case["start"]])
+      s.quiesce()
+      self.probe(chart, rt, model, "after start_at(%s) on an %s active object" % (
+        name_of(case["start"]), "anonymous" if case["host"] == "ao_anonymous" else "named"), case)
+      for k, sig in enumerate(case["events"]):
+        res = model.step(sig)
+        if res["from"] != res["to"]:
+          box["changed"] = True
+        chart.post_fifo(Event(signal=signals[sig]))
+        s.quiesce()
+        if chart.state_name != name_of(model.cur):
+          # either C01/C02 territory or ours: judge only the bookkeeping against the chart itself
+          pass
+        self.probe(chart, rt, model, "after event %d (%s) on an active object" % (k, sig), case)
+    s = detsched.Scheduler(schedule=[], step_limit=400000, trace_files=[files["activeobject"]])
+    try:
+      detsched.guarded_run(s, body)
+    except (detsched.Deadlock, detsched.StepLimit) as e:
+      raise PropertyViolation("no quiescence: %s" % e, "C23:liveness")
+    if s.thread_errors:
+      n_, e, tb = s.thread_errors[0]
+      raise PropertyViolation("thread %s died: %s: %s" % (n_, type(e).__name__, e), "C23:thread-error")
+    stats.case(case, box["changed"], ["host_" + case["host"]] + (["repeated_names"] if spec.get("names") else []))
+
   def check(self, case, stats):
+    if case["host"].startswith("ao"):
+      return self.check_ao(case, stats)
     changed = [False]
-    classes = ["host_" + case["host"]]
+    classes = ["host_" + case["host"]] + (["repeated_names"] if case["spec"].get("names") else [])
 
     def on_step(rep, model, rt, chart):
       if rep.res["from"] != rep.res["to"]:
